@@ -3,6 +3,8 @@
 usage: seedprompt3.py <name> <file> [<file> ...]"""
 import json, sys
 name = sys.argv[1]; files = sys.argv[2:]
+import os
+focus = os.environ.get("SEED_FOCUS", "")
 props = []
 for l in open('/verif/properties.jsonl'):
     d = json.loads(l)
@@ -26,6 +28,7 @@ What to produce: TWO different changes (call them A and B), in different functio
  3. genuinely violates at least ONE of the properties above on the real code (pick the one it violates most directly and name it), but only manifests under some specific input, configuration, schedule or history (not on every run of everything);
  4. comes with a demonstration: a Go test file (in the matching directory/package of the worktree) named zz_seed_demo_test.go with a test `TestSeedDemo` that FAILS on the changed code and PASSES on the unchanged code, showing the violation concretely (the input/configuration, what was observed, what the property demands). Run it both ways to confirm (save the diff to a file and use `git apply -R` / `git apply`; do NOT use `git stash`, `git commit`, `git branch` or any command that writes to the shared repository - other people use the same .git). Keep it deterministic if at all possible; if it needs a schedule, loop until it shows and say how often it shows.
 
+{focus}
 Prefer the less obvious functions of your files - helpers, option constructors, rarely used branches - over the one or two central ones. Only edit non-test .go files for the change itself (do not edit existing tests, go.mod, or any *_verif.go file). Change A and change B must be independent: develop A, save it, `git checkout -- .` (and remove the demo file), then develop B.
 
 Save the results (create directories as needed):
